@@ -32,15 +32,24 @@ class AssemblyManager(object):
     def assemble(self):
         modmap = self._generate_modules_map()
 
-        for elem in self.elements:
-            self._deref_citations(elem.record)
-
-        assembly = self._generate_assembly(modmap)
-
-        self._annotate_assembly(assembly)
-        self._ref_citations(assembly)
-        for elem in self.elements:
-            self._ref_citations(elem.record)
+        # the citations of the inputs are dereferenced while the assembly runs;
+        # remember them so that the inputs can be put back as they were,
+        # whatever the outcome
+        citations = [
+            (feature, list(feature.qualifiers["citation"]))
+            for elem in self.elements
+            for feature in elem.record.features
+            if "citation" in feature.qualifiers
+        ]
+        try:
+            for elem in self.elements:
+                self._deref_citations(elem.record)
+            assembly = self._generate_assembly(modmap)
+            self._annotate_assembly(assembly)
+            self._ref_citations(assembly)
+        finally:
+            for feature, citation in citations:
+                feature.qualifiers["citation"][:] = citation
 
         return assembly
 
